@@ -1,14 +1,21 @@
 from ..runner import Harness, Spec
+from ..translate import go_translator
 
 SPEC = Spec(
     pid="C03",
-    lean_modules=["OtelVerif.Props.C03"],
+    lean_modules=["OtelVerif.Props.C03", "OtelVerif.Props.C03Shape", "OtelVerif.Props.C03Cfg", "OtelVerif.Lemmas.C03Direct", "OtelVerif.Lemmas.C03Refine"],
+    translators=[go_translator("c03shape", "OtelVerif/Gen/C03Shape.lean")],
     extra_audit_modules=["OtelVerif.Lemmas.C03", "OtelVerif.Lemmas.C03Term", "OtelVerif.Lemmas.C03Bridge", "OtelVerif.Lemmas.C03ReplaySound"],
     harnesses=[
         Harness(name="shutdown", module="exporter", pkg="exporter/exporterhelper",
                 files={"zz_verif_c03_shutdown_test.go": "c03/shutdown_test.go"},
                 test="TestVerifC03Shutdown", driver="drv_c03", go="go1.26",
                 n={"quick": 6000, "thorough": 150000}, timeout_s=1500),
+        # the fourth per-signal duplicate: the PROFILES exporter (xexporterhelper.NewProfilesExporter / NewProfilesRequestExporter),
+        # own compact runner (an in-package test of exporterhelper cannot import xexporterhelper), same protocol, same Lean monitor
+        Harness(name="xprofiles", module="exporter/exporterhelper/xexporterhelper", pkg="exporter/exporterhelper/xexporterhelper",
+                files={"zz_verif_c03_xprofiles_test.go": "c03/xprofiles_test.go"}, test="TestVerifC03XProfiles", driver="drv_c03", go="go1.26",
+                n={"quick": 1500, "thorough": 20000}, timeout_s=900),
     ],
     rule="each case = one configuration of the REAL exporter of one signal (exporterhelper.NewLogs/NewTraces/NewMetrics, or in 3/4 of "
          "the cases New<Signal>Request with a thin wrapper around the helper's own request type that makes the batcher's MergeSplit "
@@ -30,9 +37,28 @@ SPEC = Spec(
          "bubble (virtual time). Persistent cases: storage decoded at return and a restart on the same storage. Every returned, "
          "replayable trace (no batching, or wrapper) is additionally REPLAYED THROUGH `fire` (hidden steps inferred; every fired "
          "label must be enabled). non-trivial = at the shutdown request some accepted item had not finished an export call "
-         "(queued, batched, in flight or in back-off); distinct = distinct op sequences.",
+         "(queued, batched, in flight or in back-off); distinct = distinct op sequences. "
+         "Round 2 (second session): (a) queue-less cases now also get 0-2 LATE sends (a Send after Shutdown runs its first attempt on the caller's "
+         "goroutine; a retry of it must not begin: Direct.lateRetries replaces 'any call after the return' for these cases, in the Go oracle and "
+         "in the driver alike); (b) every case records, by reflection on the REAL exporter object after Start, queue sender / retry sender "
+         "present, queue kind, wait_for_result as it reached the memory queue, consumer goroutines, batcher kind, worker-pool capacity, timer: "
+         "`tr rt`, diffed by the driver with the Lean function `derive` applied to the case's options (prop derive), and the LTS replay starts "
+         "from the derived object; (c) harness xprofiles = the PROFILES exporter (xexporterhelper.NewProfilesExporter / NewProfilesRequestExporter, "
+         "own compact runner, same protocol and monitor): memory queue (requests/items, capacity small/large, 1-3 consumers, wait_for_result, "
+         "block_on_overflow), sending_queue::batch 3/8, persistent queue with the profiles encoding 1/8, queue-less 1/8, retry, timeout, partial "
+         "failures (xconsumererror), items = samples (id in Sample.Value[0]), 12 corpus cases first.",
     trusted_base=[
         "Lean 4.33.0 kernel; axioms per theorem listed under axioms_per_theorem",
+        "translator translators/cmd/c03shape (go/ast): control skeletons (calls, returns, go/defer, if/for conditions, select cases, channel "
+        "operations, field assignments, in source order) of BaseExporter.Shutdown/Start, NewBaseExporter's chain, retrySender.Shutdown and the "
+        "selects of its Send loop, newQueueBatchConfig, QueueBatch.Shutdown/Start, newQueueBatch (+ its settings literals and newAsyncQueue "
+        "arguments), asyncQueue.Shutdown/Start, memoryQueue.Read/Shutdown, persistentQueue.Read/Shutdown/unrefClient, defaultBatcher.Shutdown/"
+        "flush/flushCurrentBatchIfNecessary/timer goroutine/Start/newDefaultBatcher, disabledBatcher.Consume; Model/C03Shape.lean interprets them "
+        "(inlining of the shutdown path, classification of leaf tokens into LTS labels / neutral / unknown)",
+        "reflection in the harness (c03Reflect) reads unexported fields of the real exporter object by name (BaseExporter.QueueSender/RetrySender, "
+        "QueueBatch.queue/batcher, obsQueue.Queue, asyncQueue.numConsumers/readableQueue, memoryQueue.waitForResult, defaultBatcher.workerPool/timer)",
+        "hand-written LTS of the queue-less exporter (Model/C03Direct.lean) and the abstract specification Model/C03Spec.lean (AState/AStep: the "
+        "statement the refinement theorems are relative to)",
         "hand-written LTS of the shutdown protocol (Model/C03.lean: base_exporter/queue_batch/async_queue/memory_queue/"
         "persistent_queue Read+onDone/default_batcher/disabled_batcher/retry_sender at critical-section granularity), tied in two ways: "
         "(1) every recorded trace of the real exporter is judged by the Lean monitor C03.verdict (proved sound; and proved to accept "
@@ -50,10 +76,18 @@ SPEC = Spec(
         "num_consumers >= 1 (Config.Validate)",
         "MergeSplit conserves items (property C04): the model allows any re-partition that is a permutation",
         "worker pool of the default batcher has at least one slot (termination theorem); a stopped retry sender schedules no retry",
-        "SCOPE: the theorems and the clause 'all export calls have returned' are about exporters with a sending queue and/or a batcher. "
+        "SCOPE: the main LTS and the clause 'all export calls have returned' are about exporters with a sending queue and/or a batcher. "
         "Queue-less exporters (Send runs the export on the caller's goroutine; Shutdown only stops the retry sender and does not wait "
-        "for callers) are outside the LTS: for them only 'no export call begins after Shutdown returned' is MONITORED (open calls are "
-        "the callers' own, no late sends generated, the same-instant tie of a back-off timer with Shutdown excluded)",
+        "for callers) have their OWN LTS (Model/C03Direct.lean): proved there — after the return no RETRY begins (a call that begins is a first "
+        "attempt of a caller's Send), a flight in back-off can only end kept, attempts grow by at most one and only from 0; the trace monitor "
+        "Direct.lateRetries is sound and accepts every run of that LTS (C03_direct_bridge, disjoint item lists). 'All export calls have "
+        "returned' is not claimed for them (false of the code); the same-instant tie of a back-off timer with Shutdown stays excluded; a "
+        "sub-list retry (OnError) is handled by the monitor's chains, the direct LTS retries the same items",
+        "configuration glue: `derive` (Model/C03Cfg.lean) is hand-written branch by branch after NewBaseExporter/newQueueBatchConfig/newQueueBatch, "
+        "its branches are taken through the regenerated Shape facts and its output is diffed with the real object in every case; Config.Validate "
+        "itself (num_consumers >= 1 etc.) is an assumption (UCfg.valid), C13 owns validation",
+        "the abstract spec (Model/C03Spec.lean) lets 'work' end export passes without saying they were attempted: 'attempted at least once / "
+        "exactly once' stays with C03_memory_drained / _no_duplication (FlightOK), not with the refinement",
         "the replay through `fire` (prop refine) is a heuristic consistency check: hidden steps are inferred with look-ahead into the "
         "trace and placed as late as possible; C03_replay_reachable says the inferred schedule is a run of the LTS, NOT that its "
         "observable projection equals the recorded trace (not proved)",
